@@ -41,7 +41,7 @@ def jobs_for(eng, prop):
     from pyvc import units
     out = []
     for qn, c in CONTRACTS.items():
-        if c.inline or c.trusted:
+        if c.inline or c.trusted or c.extra.get('bounded'):
             continue
         props = set(c.props)
         for name in list(c.ensures) + list(c.raises):
@@ -111,3 +111,17 @@ def run_property(prop, tier='quick', nproc=None):
 
 def file_hashes(eng):
     return {m.name: m.sha256[:16] for m in eng.repo.modules.values()}
+
+
+def bounded_jobs(prop):
+    from pyvc.contracts import CONTRACTS
+    out = []
+    for qn, c in CONTRACTS.items():
+        if not c.extra.get('bounded'):
+            continue
+        props = set(c.props)
+        for name in list(c.ensures) + list(c.raises):
+            props.update(c.clause_props(name))
+        if prop in props:
+            out.append(qn)
+    return out
